@@ -176,3 +176,18 @@ Qed.
     destruct (x86_convert_roundtrip 0 0 x y s1 r1 Hok E1) as (s2 & r2 & E2).
     rewrite E2. reflexivity.
   Qed.
+
+(* ---- histories: result i depends on argument i only ---- *)
+
+Lemma call_history_nth {A B : Type} (f : A -> B) xs i x :
+  nth_error xs i = Some x -> nth_error (call_history f xs) i = Some (f x).
+Proof. intros H. unfold call_history. apply map_nth_error. exact H. Qed.
+
+Lemma call_history_independent {A B : Type} (f : A -> B) xs ys i x :
+  nth_error xs i = Some x -> nth_error ys i = Some x ->
+  length (call_history f xs) = length xs /\
+  nth_error (call_history f xs) i = nth_error (call_history f ys) i.
+Proof.
+  intros H1 H2. split; [apply map_length|].
+  rewrite (call_history_nth f xs i x H1), (call_history_nth f ys i x H2). reflexivity.
+Qed.
